@@ -97,6 +97,14 @@ pub fn evalc(req: &Value) -> Value {
         Err(_) => return json!({"compile_panic": crate::take_panic()}),
     };
     let cases = req["cases"].as_array().unwrap_or(&empty);
+    // optional: a pool of values decoded once; cases are then arrays of indices into it
+    let pool: Option<Vec<Val>> = match req["pool"].as_array() {
+        Some(ws) => match ws.iter().map(dec).collect::<Result<Vec<Val>, String>>() {
+            Ok(p) => Some(p),
+            Err(e) => return json!({"harness_error": format!("pool: {e}")}),
+        },
+        None => None,
+    };
     let id = req.get("id").cloned().unwrap_or(Value::Null);
     let mut k0 = 0usize;
     while k0 < cases.len() {
@@ -104,7 +112,18 @@ pub fn evalc(req: &Value) -> Value {
         let mut codes = String::with_capacity(k1 - k0);
         let mut panics = Vec::new();
         for (k, case) in cases[k0..k1].iter().enumerate() {
-            let input = match dec(case) {
+            let decoded = match &pool {
+                Some(p) => case
+                    .as_array()
+                    .and_then(|ix| {
+                        ix.iter()
+                            .map(|i| i.as_u64().and_then(|i| p.get(i as usize)).cloned())
+                            .collect::<Option<Val>>()
+                    })
+                    .ok_or_else(|| "bad index tuple".to_string()),
+                None => dec(case),
+            };
+            let input = match decoded {
                 Ok(v) => v,
                 Err(_) => {
                     codes.push('?');
